@@ -163,6 +163,19 @@ pub const MARKER_REUSE_FDT_ID: &[u8] = b"\xFFVH-REUSE-FDT-ID";
 /// first element of a sequence: prefix + u32 object_max_cache_size + u32 allowed growth of the live heap (bytes, BE)
 pub const MARKER_BUDGET: &[u8] = b"\xFFVH-BUDGET";
 
+/// prefix + u64 TSI + u128 TOI + u32 content length + 16 bytes MD5 of the first min(length, 4096) content bytes: the
+/// sequence contains, after its hostile part, a complete valid session for that (TSI, TOI) which must be delivered
+pub const MARKER_EXPECT: &[u8] = b"\xFFVH-EXPECT";
+
+pub fn expect_marker(tsi: u64, toi: u128, content: &[u8]) -> Vec<u8> {
+    let mut v = MARKER_EXPECT.to_vec();
+    v.extend(tsi.to_be_bytes());
+    v.extend(toi.to_be_bytes());
+    v.extend((content.len() as u32).to_be_bytes());
+    v.extend(md5::compute(&content[..content.len().min(4096)]).0);
+    v
+}
+
 pub fn budget_marker(cache: u32, allowed: u32) -> Vec<u8> {
     let mut v = MARKER_BUDGET.to_vec();
     v.extend(cache.to_be_bytes());
@@ -213,7 +226,7 @@ pub fn run_sequence(
     alloc::reset_peak();
     let heap_at_start = alloc::live();
     for (i, b) in seq.iter().enumerate() {
-        if b.starts_with(MARKER_BUDGET) {
+        if b.starts_with(MARKER_BUDGET) || b.starts_with(MARKER_EXPECT) {
             continue;
         }
         if b.as_slice() == MARKER_CLEANUP {
@@ -266,6 +279,26 @@ pub fn run_sequence(
             out.push(Violation::new("alloc_beyond_budget", format!("the live heap grew by {} bytes over {} pushes of well-formed packets for one undecodable object (object_max_cache_size {}, allowed {})",
                 growth, st.pushes, cache, allowed))
                 .witness(json!({"what": describe(), "growth": growth, "allowed": allowed, "pushes": st.pushes, "errors": st.err})));
+        }
+    }
+    // a valid session that re-uses the TSI and TOI of an object the hostile part made fail is delivered
+    if !aborted {
+        for f in seq.iter().filter(|f| f.starts_with(MARKER_EXPECT) && f.len() == MARKER_EXPECT.len() + 8 + 16 + 4 + 16) {
+            let o = MARKER_EXPECT.len();
+            let tsi = u64::from_be_bytes(f[o..o + 8].try_into().unwrap());
+            let toi = u128::from_be_bytes(f[o + 8..o + 24].try_into().unwrap());
+            let len = u32::from_be_bytes(f[o + 24..o + 28].try_into().unwrap()) as usize;
+            let want = &f[o + 28..o + 44];
+            let l = log.borrow();
+            let ok = l.writers.iter().any(|w| w.tsi == tsi && w.toi == toi && w.state == WState::Complete && w.bytes_written == len && md5::compute(&w.data[..w.data.len().min(4096)]).0 == want);
+            if !ok {
+                let ws: Vec<String> = l.writers.iter().filter(|w| w.tsi == tsi && w.toi == toi).map(|w| l.trace_of(w.wid)).collect();
+                out.push(Violation::new("same_toi_session_not_delivered", format!(
+                    "the hostile packets made TOI {} of TSI {} fail; the complete valid session for the same TSI and TOI pushed afterwards is not delivered ({} failed object(s) remembered, {} object(s) in reception); writers for it: {:?}",
+                    toi, tsi, rx.nb_objects_error(), rx.nb_objects(), ws))
+                    .with("nb_objects_error", rx.nb_objects_error() as u64)
+                    .witness(json!({"what": describe(), "writers": ws})));
+            }
         }
     }
     if aborted {
